@@ -96,21 +96,22 @@ SEEDS = {
             "MATCH (a:P)-[e:R]->(b) RETURN a.k + b.k * 2 AS s, e.w", "INSERT (:P {k: 5, name: 'x'})", "MATCH (n:P {k: 1}) SET n.k = n.k + 1 RETURN n",
             "MATCH (n) WHERE n.k IN [1, 2, 3] RETURN DISTINCT n.name", "MATCH (a)-[:R*1..3]->(b) RETURN count(b)", "MATCH (n:P) RETURN n.k / 0, n.k % 0, -n.k",
             "OPTIONAL MATCH (n:Z) RETURN n UNION ALL MATCH (m:P) RETURN m", "MATCH (n) WHERE n.k = $p RETURN n", "UNWIND [1, 2, 3] AS x RETURN x + 9223372036854775807",
-            "MATCH (n:P) RETURN CASE WHEN n.k > 1 THEN 'big' ELSE 'small' END", "MATCH (n) DETACH DELETE n", "MATCH (n:P) RETURN [1,2,3][n.k], substring(n.name, 5, 2), toInteger('x')"],
+            "MATCH (n:P) RETURN CASE WHEN n.k > 1 THEN 'big' ELSE 'small' END", "MATCH (n) WHERE n.name = 'a\\u00e9\\n\\t\\\\\\'b' RETURN \"x\\u0041\\U0001F40E\"", "MATCH (n) DETACH DELETE n", "MATCH (n:P) RETURN [1,2,3][n.k], substring(n.name, 5, 2), toInteger('x')"],
     "cypher": ["MATCH (n:P) WHERE n.k = 1 AND NOT n.name = 'a' RETURN n.k, count(*) ORDER BY n.k DESC SKIP 1 LIMIT 2", "CREATE (:P {k: 5, name: 'x'})-[:R {w: 1}]->(:Q)",
                "MATCH (a:P)-[e:R]->(b) WITH a, count(b) AS c WHERE c > 0 RETURN a.k, c", "MERGE (n:P {k: 9}) ON CREATE SET n.name = 'm' RETURN n", "MATCH (n) RETURN n.k / 0, n.k % 0, -(-9223372036854775808)",
                "UNWIND range(1, 3) AS x RETURN x * 9223372036854775807", "MATCH p = (a)-[*1..2]-(b) RETURN length(p)", "MATCH (n:P) REMOVE n.name SET n:Z RETURN labels(n)",
-               "MATCH (n) WHERE n.name STARTS WITH 'a' OR n.name =~ '(' RETURN n", "RETURN [x IN [1,2,3] WHERE x > 1 | x * 2], {a: 1}.a, [1,2][5], size('é')"],
+               "MATCH (n) WHERE n.name STARTS WITH 'a' OR n.name =~ '(' RETURN n", "RETURN [x IN [1,2,3] WHERE x > 1 | x * 2], {a: 1}.a, [1,2][5], size('é')", "MATCH (n) WHERE n.name = 'a\\u00e9\\n\\t\\\\\\'b' RETURN \"x\\u0041\\U0001F40E\""],
     "gremlin": ["g.V().hasLabel('P').has('k', gt(1)).out('R').values('k').order().by(desc).limit(2)", "g.addV('P').property('k', 7).property('name', 'x')",
                 "g.V().has('k', within(1, 2)).as('a').out().as('b').select('a', 'b').by('k')", "g.V().repeat(out()).times(3).path().dedup().count()", "g.V().group().by('k').by(count())",
-                "g.V().has('k', 1).drop()", "g.E().hasLabel('R').inV().id()", "g.V().values('k').sum().is(gt(9223372036854775807))", "g.V().range(-1, 99999999999999999999)"],
+                "g.V().has('k', 1).drop()", "g.E().hasLabel('R').inV().id()", "g.V().values('k').sum().is(gt(9223372036854775807))", "g.V().range(-1, 99999999999999999999)", "g.V().has('name', 'a\\u00e9\\n\\\\\\'b').has(\"k\", \"x\\u0041\")"],
     "graphql": ["{ person(k: 1) { name friends { name } } }", "query Q($v: Int) { person(k: $v) { name } }", "mutation { createPerson(k: 5, name: \"x\") { id } }",
                 "{ person(first: 9223372036854775807, offset: -1, where: {age_gt: 1}) { ...F } } fragment F on Person { name }", "{ a: person { __typename } b: person @include(if: true) { name } }",
-                "{ person(filter: {k: [1, 2, {x: null}]}, orderBy: \"k\") { name(x: \"\\u00e9\\n\") } }"],
+                "{ person(filter: {k: [1, 2, {x: null}]}, orderBy: \"k\") { name(x: \"\\u00e9\\n\") } }", "{ person(name: \"\"\"block \\\"\"\" \\u00e9 text\"\"\", k: \"a\\u0041\\t\\\\\") { name } }"],
     "sparql": ["PREFIX ex: <http://x/> SELECT DISTINCT ?s ?o WHERE { ?s ex:p ?o . FILTER(?o = \"lit\") } ORDER BY DESC(?s) LIMIT 2 OFFSET 1", "SELECT (COUNT(*) AS ?c) WHERE { ?s ?p ?o } GROUP BY ?p HAVING (?c > 0)",
                "INSERT DATA { <http://x/b> <http://x/p> \"v\"@en , 1 , \"2\"^^<http://www.w3.org/2001/XMLSchema#integer> }", "SELECT ?s WHERE { { ?s ?p 1 } UNION { ?s ?p 2 } OPTIONAL { ?s <http://x/q> ?z } MINUS { ?s ?p 3 } }",
                "ASK { ?s ?p ?o FILTER(REGEX(STR(?o), \"(\") && ?o / 0 > 1) }", "SELECT ?x WHERE { BIND(9223372036854775807 + 1 AS ?x) VALUES ?y { 1 2 } }", "DELETE DATA { <http://x/a> <http://x/p> \"lit\" }",
-               "CONSTRUCT { ?s ?p ?o } WHERE { GRAPH <http://g> { ?s ?p ?o } }", "DESCRIBE <http://x/a>"],
+               "CONSTRUCT { ?s ?p ?o } WHERE { GRAPH <http://g> { ?s ?p ?o } }", "DESCRIBE <http://x/a>",
+               "SELECT ?s WHERE { ?s <http://x/p> \"a\\u00e9\\n\\t\\\\\\\"b\" . ?s <http://x/q> '''x\\U0001F40E\\u0041''' FILTER(?s != 'c\\u0042') }"],
 }
 SUBST = ["\x00", "\"", "'", "\\", "(", ")", "{", "}", "[", "]", "é", "\U0001F40E", "\n", "`", "$", "-", "9", ".", "*", ":", "<", ">", "/", "#", "\t", "‮", "﻿"]
 PARAMS = [{"p": None}, {"p": True}, {"p": -1}, {"p": 9223372036854775807}, {"p": 1.5}, {"p": "x"}, {"p": [1, 2]}, {"v": "notanint"}, {}, {"p": 1e308}]
